@@ -10,6 +10,7 @@
   C16_sticky_refuses) is tied by E4 walks with the delay bound enforced.
 -/
 import RaftVerif.Properties.C05
+import RaftVerif.Proofs.ReplLeaseExample
 set_option linter.unusedSimpArgs false
 namespace Raft
 open Node
@@ -50,5 +51,30 @@ theorem C17_follower_has_no_lease (n : Node) (now l t : Nat) : (n.becomeFollower
 /-! Non-vacuity: lease of 100 renewed at 1000 is valid at 1099 and lapsed at 1100. -/
 example : (({ id := 1, leaseDur := 100 } : Node).tryApplyReadOnly 1000 0).1.leaseValid 1099 = true ∧
           (({ id := 1, leaseDur := 100 } : Node).tryApplyReadOnly 1000 0).1.leaseValid 1100 = false := by decide
+
+/-! ### Cluster level (Proofs/ReplLease.lean) -/
+
+/-- **While a lease is valid there is no leader of a later term.** Timely runs of the timed
+    replication-layer model (Model/ReplLease.lean): a node votes only `ET` after it last
+    answered a replication request (the stickiness guard), a leader uses an answer only within
+    `D` of building the request, the lease runs `LD` from the moment the round reaches its
+    quorum; `LD + D ≤ ET`. -/
+theorem C17_no_later_leader_under_lease {cfg : Config} (hnd : cfg.voterIds.Nodup) {ET LD D : Nat} (hT : LD + D ≤ ET)
+    {l : Repl.LState} (hreach : Repl.LReachable cfg ET LD D l) (ldr : Nat) (hv : Repl.LeaseValid l ldr) :
+    ∀ T' c g, l.r.s.glog T' = some (c, g) → T' ≤ (l.r.s.nodes ldr).term :=
+  Repl.no_later_leader_under_lease hnd hT hreach ldr hv
+
+/-- **Lease reads are fresh while the timing assumption holds.** A read registered at the lease
+    holder and answered under a valid lease, with the read index applied, contains every commit
+    made by any leader before the read was registered. -/
+theorem C17_lease_read_fresh {cfg : Config} (hnd : cfg.voterIds.Nodup) {ET LD D : Nat} (hT : LD + D ≤ ET)
+    {l : Repl.LState} (hreach : Repl.LReachable cfg ET LD D l) (rd : Repl.Read) (a : Nat) (hrd : rd ∈ l.r.reads)
+    (hv : Repl.LeaseValid l rd.leader) (hterm : (l.r.s.nodes rd.leader).term = rd.term) (hri : rd.readIndex ≤ a) :
+    ∀ e ∈ l.r.commitAt, e.time < rd.time → e.index ≤ a ∧ e.pre <+: (l.r.s.nodes rd.leader).log.take a :=
+  Repl.lease_read_fresh hnd hT hreach rd a hrd hv hterm hri
+
+/-- non-vacuity: a timely run (ET = 10, LD = 5, D = 5) reaches a state with a valid lease -/
+example : Repl.LReachable Repl.cfg3 10 5 5 Repl.v7 ∧ Repl.LeaseValid Repl.v7 1 :=
+  ⟨Repl.v7_reachable, Repl.v7_lease_valid.1⟩
 
 end Raft
